@@ -87,7 +87,10 @@ func generateClone(names []string) error {
 							g.Line().Commentf("Path: %s", frag.Name)
 							g.Add(frag.Field.Get("out")).Op("=").Add(frag.Field.Get("n"))
 						case data.SpecialDecoration:
-							// ignore
+							// The restorer renders these decorations (e.g. the Type.Decs of a FuncDecl), so a
+							// clone has to carry them.
+							g.Line().Commentf("Special decoration: %s", frag.Name)
+							g.Add(frag.Decs.Get("out")).Dot(frag.Name).Op("=").Append(frag.Decs.Get("out").Dot(frag.Name), frag.Decs.Get("n").Dot(frag.Name).Op("..."))
 						default:
 							panic(fmt.Sprintf("unknown fragment type %T", frag))
 						}
